@@ -1,6 +1,7 @@
 import Cherab.Model.Adf
 import Cherab.Lemmas.Adf
 import Cherab.Lemmas.Adf15
+import Cherab.Model.AdfText
 import Mathlib.Tactic.Ring
 import Mathlib.Tactic.Linarith
 import Mathlib.Data.List.Nodup
@@ -668,7 +669,7 @@ theorem entries15_ne (t : Tab15 α ω σ) (hwf : WF15 t) : (entries15 t).isEmpty
   | full dot =>
     have := hwf.levels dot hd e (by rw [he]; exact List.mem_cons_self)
     obtain ⟨en, hen⟩ := Option.isSome_iff_exists.mp this
-    simp [he, List.filterMap_cons, hen]
+    simp [he, hen]
 
 /-- the block with `ISEL = p.2` exists in the data section -/
 def present (t : Tab15 α ω σ) (p : Trans σ × Nat) : Bool := (findBlk t.blocks p.2).isSome
@@ -780,10 +781,11 @@ def sample15 : Tab15 Nat Nat Nat where
   idx := [{ isel := 1, wl := 121567, up := 2, lo := 1, typ := .excit }, { isel := 2, wl := 656280, up := 2, lo := 1, typ := .recom }]
   dialect := .full false
 
-example : (parse15 lexK15 ⟨none, false, false, false⟩ (render15 sample15)).toOption.map (fun o => (o.excitation, o.recombination, o.wavelength))
-    = some ([((.cfg 12 2 1 15, .cfg 11 2 0 5), { ne := [1, 2, 3], te := [4, 5], rate := [[0, 1], [10, 11], [20, 21]] })],
-            [((.cfg 12 2 1 15, .cfg 11 2 0 5), { ne := [7], te := [8], rate := [[99]] })],
-            [((.cfg 12 2 1 15, .cfg 11 2 0 5), 656280)]) := by decide
+example : parse15 lexK15 ⟨none, false, false, false⟩ (render15 sample15)
+    = .ok { excitation := [((.cfg 12 2 1 15, .cfg 11 2 0 5), { ne := [1, 2, 3], te := [4, 5], rate := [[0, 1], [10, 11], [20, 21]] })],
+            recombination := [((.cfg 12 2 1 15, .cfg 11 2 0 5), { ne := [7], te := [8], rate := [[99]] })],
+            thermalcx := [],
+            wavelength := [((.cfg 12 2 1 15, .cfg 11 2 0 5), 656280)] } := by decide
 
 example : WF15 sample15 ∧ Selects ⟨none, false, false, false⟩ sample15.dialect ∧ AllPresent sample15 := by
   refine ⟨⟨by decide, by decide, ?_⟩, ⟨rfl, rfl, rfl⟩, ?_⟩
@@ -815,6 +817,29 @@ def sample2x : Tab2x Nat where
   sv := fun i j => 100 * i + j
 
 example : (parse2x (lexK2x (α := Nat)) (render2x sample2x)).toOption.map (·.sen) = some [[0, 1, 2], [100, 101, 102]] := by decide
+
+/-! ## tie to the source literals (Gen/AdfLex.lean is regenerated from /repo on every run) -/
+
+/-- every regular expression, constant column slice, `readvalues(n, per_line)` call, `/ 10` and conversion factor of
+the anchored sources is still the one that the text layer (`Model/AdfText.lean`) and the harness transcribe -/
+theorem lex_literals_pinned :
+    Cherab.Gen.AdfLex.regexes = Cherab.Adf.Text.pinnedRegexes
+    ∧ Cherab.Gen.AdfLex.slices = Cherab.Adf.Text.pinnedSlices
+    ∧ Cherab.Gen.AdfLex.readvaluesCalls = Cherab.Adf.Text.pinnedReadvalues
+    ∧ Cherab.Gen.AdfLex.divisions = Cherab.Adf.Text.pinnedDivisions
+    ∧ Cherab.Gen.AdfLex.conversionFactors = Cherab.Adf.Text.pinnedFactors := by
+  refine ⟨by decide, by decide, by decide, by decide, by decide⟩
+
+/-- the classes that the model shifts by −1 are exactly the strings listed in `_notation_adf11_adas2cherab` -/
+theorem charge_list_pinned (c : Class11) :
+    (c.chargeCorrection = -1) ↔ c.code ∈ (Cherab.Gen.AdfLex.membershipLists.lookup "install.py:_notation_adf11_adas2cherab:in1").getD [] := by
+  cases c <;> decide
+
+/-- the normalisation of `sen`, `st`, `sref` in the model is the `normalisation=` argument of the three front ends -/
+theorem norm_pinned (k : Kind2x) :
+    (Cherab.Gen.AdfLex.normalisations.lookup k.key)
+      = some (match k.norm with | .cm3 => "Cm3ToM3.conversion_factor" | _ => "1") := by
+  cases k <;> decide
 
 /-! ### the resolved-file probe: concrete witness of the mis-detection -/
 
